@@ -472,12 +472,6 @@ class Relay(evx.System):
       if q:
         return ('closed-before-flush', 'after stop the connection to %r was closed with %r still queued' % (d, q))
       del self.lose_after_stop[:]
-    if self.with_receivers:
-      for p, t in self.receivers:
-        paused = t.producerState != 'producing'
-        if paused != bool(self.state.metricReceiversPaused):
-          return ('receiver-out-of-step', 'a connected receiver is %s while metricReceiversPaused=%r' % (
-            t.producerState, self.state.metricReceiversPaused))
     return None
 
   def check(self):
